@@ -195,7 +195,20 @@ def conv_watch(F):
             F.conv_stalled_since_put[e.id] = True
 
 
+def source_stamp_watch(F):
+    """step hook: remember the time stamps an item carries at the moment its source puts it on an edge (the next node overwrites them)"""
+    seen = getattr(F, "_ss_seen", 0)
+    for ev in F.events[seen:]:
+        if ev[0] == "put" and ev[3] is not None and ev[3].__class__.__name__ == "Source" and ev[4] is not None:
+            o = ev[4].obj
+            F.source_stamps.setdefault(ev[3].id, []).append((getattr(o, "id", "?"), getattr(o, "timestamp_creation", None), getattr(o, "timestamp_node_exit", None)))
+    F._ss_seen = len(F.events)
+
+
 def install(F):
+    if "C18" in F.props:
+        F.source_stamps = {}
+        F.step_hooks.append(source_stamp_watch)
     if any(e.__class__.__name__ == "ConveyorBelt" for e in F.edges):
         F.conv_stalled_since_put = {}
         F.step_hooks.append(conv_watch)
@@ -804,6 +817,10 @@ def c18_final(F, T):
             first = sum(1 for r in F.items.values() if r.src is n)
             gen, disc = n.stats["num_item_generated"], n.stats["num_item_discarded"]
             ctx.hit("C18:counters-checked")
+            # the stamps an item carries when it leaves its source (recorded at that put): creation no later than the exit from the source
+            for (it_id, t_c, t_x) in getattr(F, "source_stamps", {}).get(n.id, []):
+                if t_c is not None and t_x is not None and ctx.lt(t_x, t_c):
+                    F.soft("C18:item-left-its-source-with-an-exit-stamp-earlier-than-its-creation-stamp", {"item": it_id})
             if not (first + disc <= gen <= first + disc + 1):
                 F.soft("C18:num_item_generated-wrong@Source", {"generated": gen, "put": first, "discarded": disc})
         elif cls == "Machine":
